@@ -22,7 +22,9 @@ Oracle (independent of the model): the same spend judged by the extracted Script
   * reported constraints satisfy the lifted policy (Descriptor::lift evaluated on the reported set)
 False accepts are keyed by their cause (smallest counterfactual that makes the specification accept):
 after-final-sequence, older-tx-version-1, sig-parse-laxity, noncanonical-script-reencoded,
-script-elem-01-as-op1; anything else is `unexplained:<kind>:<mutation>`."""
+script-elem-01-as-op1, nested-segwit-scriptsig-extra-push (accepted once the scriptSig is the single redeem
+push), native-segwit-scriptsig-nonempty (accepted once the scriptSig is empty); anything else is
+`unexplained:<kind>:<mutation>`."""
 import hashlib, json, os, re
 import vlib
 
@@ -196,7 +198,8 @@ def run(rep, tier, seed, replay):
         "rule": "directed descriptor templates (all output types incl. pk/pkh/wpkh/sh(wpkh)/tr key path) + seeded type-directed generator "
                 "(4/5 sane) in wsh, sh(wsh), sh, bare, tr(1-3 leaves); per descriptor the (version, nLockTime, nSequence) environments around each "
                 "time lock (t-1, t, t+1, other unit, final 0xffffffff, disable bit, extra bits, version 1); per environment real signatures, the library's "
-                "satisfactions (honest, malleable, optimistic about locks; key/preimage subsets) and seeded single + double mutations of witness and scriptSig; "
+                "satisfactions (honest, malleable, optimistic about locks; key/preimage subsets) and seeded single + double mutations of witness and scriptSig, "
+                "deterministic scriptSig-shape mutants (extra push in front / behind, non-empty scriptSig for native segwit) and non-minimal selectors; "
                 "non-trivial = accepted by the interpreter (then judged by the Script specification, constraints and policy checked)",
         "cases": s.get("cases", 0), "summary": s,
         "mutation_kind_histogram": sub("mutation/"), "verdict_histogram": sub("verdict/"),
